@@ -5,6 +5,7 @@ use crate::monitor::{digest, observe, par_range, Cfg, Ctx, Report};
 use crate::oracle::groups::{concat, inverse, rotate, Word};
 use crate::oracle::snf;
 use crate::rng::Rng;
+use crate::shapes;
 use num_bigint::BigInt;
 use num_traits::{One, ToPrimitive, Zero};
 use rust_dsymbols::fpgroups::invariants::{abelian_invariants, relator_as_vector};
@@ -86,6 +87,30 @@ fn to_big(v: &[usize]) -> Vec<BigInt> {
     v.iter().map(|&x| BigInt::from(x)).collect()
 }
 
+/// The form in which the relators are handed to the library (slice iterator, filter, chain, an iterator
+/// without any size hint, ...) is a function of the presentation, so a replay makes the same call.
+fn shape_of(n: usize, rels: &[Word]) -> usize {
+    (digest(&(n, rels)) % shapes::INPUT_SHAPES as u64) as usize
+}
+
+/// Abandoned and invalid calls made between judged cases (see monitor::set_poison).
+fn poison(k: u64) {
+    let ws = to_freewords(&[vec![1, 2, 2], vec![2, 2, 2, -1], vec![1, 1, 2]]);
+    match k % 3 {
+        0 => {
+            let _ = abelian_invariants(2, shapes::panicking_refs(&ws, 1 + (k as usize / 3) % 2));
+        }
+        1 => {
+            // a generator the presentation does not have, in a relator that is not the first
+            let bad = to_freewords(&[vec![1, 1, 1], vec![2, 5, 2]]);
+            let _ = abelian_invariants(2, bad.iter());
+        }
+        _ => {
+            let _ = abelian_invariants(0, ws.iter());
+        }
+    }
+}
+
 /// Judges one presentation (and metamorphic variants of it when `variants` is set).
 pub fn judge(ctx: &mut Ctx, n: usize, rels: &[Word], variants: bool, use_minors: bool, rng: &mut Rng, origin: &str) {
     let input = || json!({"nr_gens": n, "relators": rels, "origin": origin});
@@ -100,7 +125,9 @@ pub fn judge(ctx: &mut Ctx, n: usize, rels: &[Word], variants: bool, use_minors:
         }
     }
     let fw = to_freewords(rels);
-    let r = observe(|| abelian_invariants(n, fw.iter()));
+    let shape = shape_of(n, rels);
+    ctx.count(&format!("input_shape.{}", shapes::input_shape_name(shape)));
+    let r = observe(|| abelian_invariants(n, shapes::shaped_refs(&fw, shape)));
     ctx.eval();
     let got = match r {
         Ok(g) => g,
@@ -184,7 +211,8 @@ pub fn judge(ctx: &mut Ctx, n: usize, rels: &[Word], variants: bool, use_minors:
     vars.push(("products-appended", n, ext));
     for (name, n2, rs) in vars {
         let fw = to_freewords(&rs);
-        let r = observe(|| abelian_invariants(n2, fw.iter()));
+        let shape = shape_of(n2, &rs);
+        let r = observe(|| abelian_invariants(n2, shapes::shaped_refs(&fw, shape)));
         ctx.eval();
         ctx.count(&format!("variant.{}", name));
         let vin = || json!({"nr_gens": n2, "relators": rs, "variant": name, "of": rels});
@@ -239,6 +267,7 @@ fn overflow_witnesses() -> Vec<Vec<Vec<i64>>> {
 
 pub fn run(cfg: &Cfg) -> Report {
     let mut report = Report::new(cfg);
+    crate::monitor::set_poison(poison);
     let seed = cfg.seed;
 
     // (A) exhaustive: all 2x2 and 2x3 matrices with entries in [-3,3]
@@ -448,7 +477,8 @@ pub fn replay(ctx: &mut Ctx, input: &Value) -> bool {
         let orig: Vec<Word> = of.iter().map(|w| w.as_array().map(|l| l.iter().filter_map(|x| x.as_i64()).collect()).unwrap_or_default()).collect();
         let want = expected(n, &orig);
         let fw = to_freewords(&rels);
-        if let Ok(g) = observe(|| abelian_invariants(n, fw.iter())) {
+        let shape = shape_of(n, &rels);
+        if let Ok(g) = observe(|| abelian_invariants(n, shapes::shaped_refs(&fw, shape))) {
             if to_big(&g) != want {
                 let name = input.get("variant").and_then(|x| x.as_str()).unwrap_or("variant");
                 ctx.violation(&format!("not-invariant-under-{}", name), "abelian_invariants", input.clone(), json!(g), "unchanged");
